@@ -158,6 +158,7 @@ def terminate_matrix(chk, tier):
     scen_one = ['short', 'raise']
     scen_pers = ['p2', 'pfail'] if tier == 'thorough' else ['p2']
     cases, traces = lp.run_matrix(tier, lp.ALL, scen_one, scen_pers, 'c01t', extra_repeats=(0 if tier == 'thorough' else 3), per_class_cap=(None if tier == 'thorough' else 36))
+    lp.require_classes(chk, cases, lp.ALL, 'terminate-matrix')
     for c in cases:
         dg = lp.digest(c)
         if dg['point'] is None:
@@ -193,6 +194,7 @@ def kill_matrix(chk, tier):
     for sig in ('sigkill', 'sigterm'):
         cases, traces = lp.run_matrix(tier, PROC_KINDS, ['short', 'raise'] if tier == 'thorough' else ['short'], ['p2'], 'c01k' + sig, events='line', inject_action=sig,
                                       extra_repeats=(0 if tier == 'thorough' else 2), per_class_cap=(None if tier == 'thorough' else 15))
+        lp.require_classes(chk, cases, PROC_KINDS, 'kill-matrix-' + sig)
         for c in cases:
             dg = lp.digest(c)
             if dg['point'] is None:
